@@ -2,6 +2,8 @@
 
 package kademlia
 
+import "github.com/gauss-project/aurorafs/pkg/boson"
+
 // Hooks of property C24 (connection tracking).  Add-only; compiled only with
 // the build tag `verif`.  Other verif files of this package: depth_verif.go,
 // closest_verif.go (owned by other properties).
@@ -23,4 +25,10 @@ func (k *Kad) VerifConnBinSaturation(bin uint8) (saturated, oversaturated bool) 
 func (k *Kad) VerifConnShutdown() {
 	k.bgBroadcastCancel()
 	_ = k.blocker.Close()
+}
+
+// VerifConnPotentialDepth is the depth binSaturated derives from the known
+// peers (its short-circuit for bins at or beyond it).
+func (k *Kad) VerifConnPotentialDepth() uint8 {
+	return recalcDepth(k.knownPeers, boson.MaxPO, k.peerFilter)
 }
